@@ -522,3 +522,17 @@ M("TWIN-keyboard-interrupt-note", dict(_ALLP),
    "    except BaseException as failure:\n        # Do not leave worker processes behind when a round fails\n        LOGGER.debug(\"TICC main loop aborted: %r\", failure)\n        task_pool.terminate()\n        task_pool.join()\n        raise\n"))
 M("TWIN-result-timing-field-free", dict(_ALLP),
   ("main_loop.py", "    num_data_points = stacked_training_data.shape[0]\n", "    num_data_points = stacked_training_data.shape[0]\n    LOGGER.debug(\"fitting %d stacked points\", num_data_points)\n"))
+
+# ---------------------------------------------------------------- round 8 (hold-out) - the three clauses it added
+M("C13-nan-to-num-in-place-on-input-stats", {"C13": "C13.R6"},
+  (_GL, "    admm_args = [\n        cluster.empirical_covariance,\n",
+   "    np.nan_to_num(cluster.empirical_covariance, copy=False)\n    admm_args = [\n        cluster.empirical_covariance,\n"))
+M("C13-twin-nan-to-num-copy", {"C13": None, "C19": None},
+  (_GL, "    admm_args = [\n        cluster.empirical_covariance,\n",
+   "    cleaned_for_log = np.nan_to_num(cluster.empirical_covariance)\n    LOGGER.debug(\"largest entry %s\", cleaned_for_log.max())\n    admm_args = [\n        cluster.empirical_covariance,\n"))
+M("C07-relabel-memo-keyed-on-max-price", {"C07": "C07.R5", "C01": "C01.R9"},
+  (_K, "    (new_labels, cost) = assign_point_cluster_labels(\n        label_assignment_cost=label_assignment_cost,\n        label_switching_cost=model.arguments.label_switching_cost\n    )\n",
+   "    memo_key = (label_assignment_cost.tobytes(), float(np.max(model.arguments.label_switching_cost)))\n    if memo_key in _RELABEL_MEMO:\n        (new_labels, cost) = _RELABEL_MEMO[memo_key]\n    else:\n        (new_labels, cost) = assign_point_cluster_labels(\n            label_assignment_cost=label_assignment_cost,\n            label_switching_cost=model.arguments.label_switching_cost\n        )\n        _RELABEL_MEMO[memo_key] = (new_labels, cost)\n"),
+  (_K, "LOGGER = logging.getLogger(__name__)\n", "LOGGER = logging.getLogger(__name__)\n_RELABEL_MEMO = {}\n"))
+M("C15-twin-kernel-literal-dtype-keyword", {"C15": None, "C01": None},
+  (_K, "    future_cost_vals = np.zeros(label_assignment_cost.shape)\n", "    future_cost_vals = np.zeros(label_assignment_cost.shape, dtype=np.float64)\n"))
